@@ -651,12 +651,28 @@ def run_c09(chk, prog):
             chk.ob("C09.O4", "configure transfers exactly one item: self.sign_type.to_bytes()", ok and okc, key="xfer:configure:item", where=where, detail=fmt_term(it) if it else "?")
         else:
             ok = it is not None and it[0] == "iter" and it[1] == "map" and it[2][0] == "iter" and it[2][1] == "into" and it[2][2][0] == "sym" and it[2][2][1] == "pages" \
-                and it[3][0] == "fn" and it[3][1][0].endswith("::as_bytes")
+                and ((it[3][0] == "fn" and it[3][1][0].endswith("::as_bytes")) or closure_is_as_bytes(c.ev, it[3]))
             chk.ob("C09.O4", "send_pages transfers pages.into_iter().map(Page::as_bytes)", ok, key="xfer:send_pages:items", where=where, detail=fmt_term(it) if it else "?")
         chk.sample({"operation": name, "SendData": fmt_term(c.msgs[X["X2"][0]])[:200] if X["X2"] else None})
     chk.assumptions += ["slice::chunks(N) pieces concatenate to the slice, each of 1..=N elements; Iterator::enumerate counts from 0 per iterator instance; Clone of the item iterator restarts it (std docs)",
                         "exact within the property's bound: items <= 65535 bytes and <= 65535 chunks (the `as u16` truncation and the u16 counter increment are out-of-bound behaviour)"]
     chk.note_analysed("functions", ["flipdot::sign::Sign::send_data", "flipdot::sign::Sign::configure", "flipdot::sign::Sign::send_pages"])
+
+
+def closure_is_as_bytes(ev, f):
+    """the closure |page| page.as_bytes(): one block chain whose only call is Page::as_bytes on its own argument, returned as is"""
+    if f[0] != "closure" or f[1] not in ev.prog.fns or f[2]:
+        return False
+    body = ev.prog.fns[f[1]]["body"]
+    calls = [b["term"] for b in body["blocks"] if not b["cleanup"] and b["term"]["t"] == "call"]
+    if len(calls) != 1 or "fn" not in calls[0]["func"]:
+        return False
+    fj = calls[0]["func"]["fn"]
+    name = (fj.get("resolved") or fj)["name"]
+    if not name.endswith("page::Page::<'a>::as_bytes") and not name.endswith("Page::as_bytes"):
+        return False
+    others = [b["term"]["t"] for b in body["blocks"] if not b["cleanup"] and b["term"]["t"] not in ("call", "return", "goto", "drop")]
+    return not others and calls[0]["dest"]["local"] == 0
 
 
 def strip_loc(t):
